@@ -35,48 +35,59 @@ theorem c34_effective_read (r : Row) (h : Head) : effectiveRead r h = specEffect
   unfold effectiveRead specEffectiveRead
   rw [maxFloor3, c34_floor]; unfold specFloor; rfl
 
+theorem unreadOf_eq (r : Row) (h : Head) : unreadOf r h = specUnread r h := by
+  unfold unreadOf specUnread; rw [c34_effective_read]; split <;> omega
+
+theorem conversationOf_some (r : Row) (h : Head) (it : Item) (hc : conversationOf r h = some it) :
+    it.unread = unreadOf r h ∧ it.last = shownLast r h ∧ (visibleMessage r h = true ∨ r.act > 0) := by
+  unfold conversationOf at hc
+  by_cases hcond : (!visibleMessage r h && decide (r.act ≤ 0)) = true
+  · simp [hcond] at hc
+  · simp only [hcond, Bool.false_eq_true, if_false, Option.some.injEq] at hc
+    subst hc
+    refine ⟨rfl, rfl, ?_⟩
+    cases hv : visibleMessage r h
+    · right; simp [hv] at hcond; omega
+    · left; rfl
+
 /-- **Unread is exact**: every returned conversation carries
     `committed ∸ max(join−1, deletedTo, retention, readSeq, ownLastSend)`;
     truncated subtraction, so it is never negative. -/
 theorem c34_unread_formula (r : Row) (h : Head) (it : Item) (hc : conversationOf r h = some it) :
-    it.unread = specUnread r h ∧ it.unread = h.committed - effectiveRead r h := by
-  unfold conversationOf at hc
-  split at hc
-  · exact absurd hc (by simp)
-  · simp only [Option.some.injEq] at hc
-    subst hc
-    simp only
-    have := c34_effective_read r h
-    unfold specUnread
-    constructor <;> split <;> omega
+    it.unread = specUnread r h := by
+  rw [(conversationOf_some r h it hc).1, unreadOf_eq]
 
 example : conversationOf ⟨3, 4, 0, 0, false⟩ ⟨.ok, 10, 0, 6, some 10⟩ = some ⟨4, some 10, 3, 4, 0, 0⟩ := by decide
+
+theorem shownLast_some (r : Row) (h : Head) (s : Nat) :
+    shownLast r h = some s ↔ (h.last = some s ∧ visibleMessage r h = true ∧ s > specFloor r h) := by
+  unfold shownLast
+  rw [c34_floor]
+  cases h.last with
+  | none => simp
+  | some s' =>
+    simp only [Option.some.injEq]
+    by_cases hc : (visibleMessage r h && decide (s' > specFloor r h)) = true
+    · simp only [hc, if_true, Option.some.injEq]
+      simp only [Bool.and_eq_true, decide_eq_true_eq] at hc
+      constructor
+      · rintro rfl; exact ⟨rfl, hc.1, hc.2⟩
+      · rintro ⟨rfl, _, _⟩; rfl
+    · simp only [hc, Bool.false_eq_true, if_false]
+      simp only [Bool.and_eq_true, decide_eq_true_eq, not_and] at hc
+      constructor
+      · intro hx; exact absurd hx (by simp)
+      · rintro ⟨rfl, hv, hs⟩; exact absurd hs (hc hv)
 
 /-- **Nothing before the join point, the delete-to boundary or the retention
     boundary is ever shown as the last message**; what is shown is the head's last message. -/
 theorem c34_last_visible (r : Row) (h : Head) (it : Item) (s : Nat)
     (hc : conversationOf r h = some it) (hl : it.last = some s) :
     h.last = some s ∧ s > r.del ∧ s > h.retention ∧ (r.join > 0 → s ≥ r.join) ∧ s > specFloor r h := by
-  unfold conversationOf at hc
-  split at hc
-  · exact absurd hc (by simp)
-  · simp only [Option.some.injEq] at hc
-    subst hc
-    simp only at hl
-    cases hh : h.last with
-    | none => rw [hh] at hl; simp at hl
-    | some s' =>
-      rw [hh] at hl
-      simp only at hl
-      split at hl
-      · rename_i hv
-        simp only [Option.some.injEq] at hl
-        subst hl
-        simp only [Bool.and_eq_true, decide_eq_true_eq] at hv
-        have hf := c34_floor r h
-        unfold specFloor at hf ⊢
-        refine ⟨rfl, ?_, ?_, ?_, ?_⟩ <;> omega
-      · exact absurd hl (by simp)
+  rw [(conversationOf_some r h it hc).2.1] at hl
+  obtain ⟨a, _, c⟩ := (shownLast_some r h s).mp hl
+  unfold specFloor at c ⊢
+  refine ⟨a, ?_, ?_, ?_, ?_⟩ <;> omega
 
 example : (conversationOf ⟨5, 0, 0, 1, false⟩ ⟨.ok, 10, 0, 0, some 4⟩).map (·.last) = some none := by decide
 
@@ -85,226 +96,219 @@ example : (conversationOf ⟨5, 0, 0, 1, false⟩ ⟨.ok, 10, 0, 0, some 4⟩).m
 theorem c34_last_shown (r : Row) (h : Head) (it : Item) (s : Nat)
     (hc : conversationOf r h = some it) (hh : h.last = some s) (hs : s > specFloor r h)
     (hv : visibleMessage r h = true) : it.last = some s := by
-  unfold conversationOf at hc
-  split at hc
-  · exact absurd hc (by simp)
-  · simp only [Option.some.injEq] at hc
-    subst hc
-    simp only [hh, hv, Bool.true_and]
-    rw [c34_floor]; simp [hs]
+  rw [(conversationOf_some r h it hc).2.1]
+  exact (shownLast_some r h s).mpr ⟨hh, hv, hs⟩
 
 /-! ### commands -/
 
-theorem mutationHead_ok (row : Option Row) (h : Head) (r : Row) (h' : Head)
-    (hm : mutationHead row h = .ok (r, h')) : row = some r ∧ h' = h ∧ r.tomb = false := by
-  unfold mutationHead at hm
+theorem mutationHead_cases (row : Option Row) (h : Head) :
+    (∃ r, row = some r ∧ r.tomb = false ∧ mutationHead row h = .ok (r, h)) ∨
+    (∃ e, e ≠ Status.ok ∧ mutationHead row h = .error e) := by
+  unfold mutationHead
   cases row with
-  | none => simp at hm
-  | some r0 =>
-    simp only at hm
-    split at hm
-    · exact absurd hm (by simp)
-    · rename_i ht
-      cases ho : h.outcome <;> rw [ho] at hm <;> simp at hm
-      all_goals exact ⟨by rw [hm.1], hm.2.symm, by rw [← hm.1]; simpa using ht⟩
+  | none => right; exact ⟨.notFound, by decide, rfl⟩
+  | some r =>
+    simp only
+    cases ht : r.tomb
+    · simp only [Bool.false_eq_true, if_false]
+      cases h.outcome
+      · left; exact ⟨r, rfl, ht, rfl⟩
+      · left; exact ⟨r, rfl, ht, rfl⟩
+      · right; exact ⟨.notFound, by decide, rfl⟩
+      · right; exact ⟨.notReady, by decide, rfl⟩
+      · right; exact ⟨.other, by decide, rfl⟩
+    · right; exact ⟨.notFound, by decide, by simp⟩
+
+/-- a successful ClearUnread: live row, and the new row is the old one advanced to the tail (if needed) -/
+theorem clearStep_ok (row : Option Row) (h : Head) (r' : Row) (hs : clearStep row h = (.ok, some r')) :
+    ∃ r, row = some r ∧ r.tomb = false ∧
+      r' = (if h.committed ≤ r.read then r else advanceRead r h.committed) := by
+  unfold clearStep at hs
+  rcases mutationHead_cases row h with ⟨r, hr, ht, hm⟩ | ⟨e, he, hm⟩
+  · rw [hm] at hs
+    refine ⟨r, hr, ht, ?_⟩
+    unfold clearTarget at hs
+    by_cases hle : h.committed ≤ r.read
+    · simp only [hle, if_true, Prod.mk.injEq, Option.some.injEq, true_and] at hs ⊢; exact hs.symm
+    · simp only [hle, if_false, Prod.mk.injEq, Option.some.injEq, true_and] at hs ⊢; exact hs.symm
+  · rw [hm] at hs; simp only [Prod.mk.injEq] at hs; exact absurd hs.1 he
+
+theorem setStep_ok (row : Option Row) (h : Head) (n : Int) (r' : Row) (hs : setStep row h n = (.ok, some r')) :
+    0 ≤ n ∧ ∃ r, row = some r ∧ r.tomb = false ∧
+      r' = (match setTarget r h n.toNat with | none => r | some t => advanceRead r t) := by
+  unfold setStep at hs
+  by_cases hn : n < 0
+  · simp [hn] at hs
+  · simp only [hn, if_false] at hs
+    refine ⟨by omega, ?_⟩
+    rcases mutationHead_cases row h with ⟨r, hr, ht, hm⟩ | ⟨e, he, hm⟩
+    · rw [hm] at hs
+      refine ⟨r, hr, ht, ?_⟩
+      simp only at hs
+      cases hst : setTarget r h n.toNat <;> rw [hst] at hs <;>
+        simp only [Prod.mk.injEq, Option.some.injEq, true_and] at hs <;> exact hs.symm
+    · rw [hm] at hs; simp only [Prod.mk.injEq] at hs; exact absurd hs.1 he
+
+theorem deleteStep_ok (row : Option Row) (h : Head) (r' : Row) (hs : deleteStep row h = (.ok, some r')) :
+    ∃ r, row = some r ∧ r.tomb = false ∧ r' = hide r h.committed := by
+  unfold deleteStep at hs
+  rcases mutationHead_cases row h with ⟨r, hr, ht, hm⟩ | ⟨e, he, hm⟩
+  · rw [hm] at hs
+    simp only [Prod.mk.injEq, Option.some.injEq, true_and] at hs
+    exact ⟨r, hr, ht, hs.symm⟩
+  · rw [hm] at hs; simp only [Prod.mk.injEq] at hs; exact absurd hs.1 he
+
+theorem advanceRead_live (r : Row) (t : Nat) (ht : r.tomb = false) :
+    advanceRead r t = { r with read := max r.read t } := by
+  unfold advanceRead
+  obtain ⟨j, rd, d, a, tb⟩ := r
+  simp only at ht
+  subst ht
+  simp only [Bool.false_eq_true, if_false]
+  by_cases hg : t > rd
+  · simp only [hg, if_true]; congr 1; omega
+  · simp only [hg, if_false]; congr 1; omega
 
 /-- **Clearing unread makes it zero** (for the head the command saw). -/
 theorem c34_clear_zero (row : Option Row) (h : Head) (r' : Row)
     (hs : clearStep row h = (.ok, some r')) : specUnread r' h = 0 := by
-  unfold clearStep at hs
-  cases hm : mutationHead row h with
-  | error e => rw [hm] at hs; simp only [Prod.mk.injEq] at hs; subst hs.1; simp [mutationHead] at hm
-              <;> (cases row <;> simp at hm)
-  | ok p =>
-    obtain ⟨r, h'⟩ := p
-    obtain ⟨_, rfl, ht⟩ := mutationHead_ok row h r h' hm
-    rw [hm] at hs
-    simp only at hs
-    unfold clearTarget at hs
-    unfold specUnread specEffectiveRead
-    split at hs
-    · simp only [Prod.mk.injEq, Option.some.injEq, true_and] at hs; subst hs; omega
-    · simp only [Prod.mk.injEq, Option.some.injEq, true_and] at hs
-      subst hs
-      unfold advanceRead
-      simp only [ht, Bool.false_eq_true, if_false]
-      split <;> simp only <;> omega
+  obtain ⟨r, _, ht, hr'⟩ := clearStep_ok row h r' hs
+  subst hr'
+  unfold specUnread specEffectiveRead
+  split
+  · omega
+  · rw [advanceRead_live r _ ht]; simp only; omega
 
 example : clearStep (some ⟨1, 2, 0, 0, false⟩) ⟨.ok, 9, 0, 0, some 9⟩ = (.ok, some ⟨1, 9, 0, 0, false⟩) := by decide
+
+/-- SetUnread's target: when it moves the cursor it moves it exactly to
+    max(floor, committed − N), and only forward -/
+theorem c34_set_exact (r : Row) (h : Head) (n : Nat) :
+    setTarget r h n = (if max (specFloor r h) (h.committed - n) ≤ r.read then none
+                       else some (max (specFloor r h) (h.committed - n))) := by
+  unfold setTarget
+  simp only
+  rw [c34_floor]
+  by_cases hlt : n < h.committed
+  · simp only [hlt, if_true]; rw [maxFloor2]
+  · simp only [hlt, if_false]
+    have : max (specFloor r h) (h.committed - n) = specFloor r h := by omega
+    rw [this]
 
 /-- **Setting unread to N leaves at most N unread.** -/
 theorem c34_set_at_most_n (row : Option Row) (h : Head) (n : Int) (r' : Row)
     (hs : setStep row h n = (.ok, some r')) : specUnread r' h ≤ n.toNat ∧ 0 ≤ n := by
-  unfold setStep at hs
-  split at hs
-  · simp at hs
-  · rename_i hn
-    refine ⟨?_, by omega⟩
-    cases hm : mutationHead row h with
-    | error e =>
-      rw [hm] at hs; simp only [Prod.mk.injEq] at hs
-      obtain ⟨he, _⟩ := hs
-      subst he
-      unfold mutationHead at hm
-      cases row with
-      | none => simp at hm
-      | some r0 =>
-        simp only at hm
-        split at hm
-        · simp at hm
-        · cases ho : h.outcome <;> rw [ho] at hm <;> simp at hm
-    | ok p =>
-      obtain ⟨r, h'⟩ := p
-      obtain ⟨_, rfl, ht⟩ := mutationHead_ok row h r h' hm
-      rw [hm] at hs
-      simp only at hs
-      unfold setTarget at hs
-      have hf := c34_floor r h'
-      unfold specFloor at hf
-      unfold specUnread specEffectiveRead
-      simp only at hs
-      split at hs
-      · simp only [Prod.mk.injEq, Option.some.injEq, true_and] at hs
-        subst hs
-        rename_i hle
-        split at hle
-        · rw [maxFloor2] at hle; omega
-        · omega
-      · simp only [Prod.mk.injEq, Option.some.injEq, true_and] at hs
-        subst hs
-        unfold advanceRead
-        simp only [ht, Bool.false_eq_true, if_false]
-        split
-        · split
-          · simp only; rw [maxFloor2]; omega
-          · simp only; omega
-        · rename_i hgt hng
-          split at hng
-          · rw [maxFloor2] at hng; omega
-          · omega
+  obtain ⟨hn, r, _, ht, hr'⟩ := setStep_ok row h n r' hs
+  refine ⟨?_, hn⟩
+  subst hr'
+  rw [c34_set_exact]
+  by_cases hle : max (specFloor r h) (h.committed - n.toNat) ≤ r.read
+  · simp only [hle, if_true]
+    unfold specUnread specEffectiveRead
+    unfold specFloor at hle
+    omega
+  · simp only [hle, if_false]
+    rw [advanceRead_live r _ ht]
+    unfold specUnread specEffectiveRead specFloor
+    simp only
+    omega
 
 example : setStep (some ⟨1, 2, 0, 0, false⟩) ⟨.ok, 9, 0, 0, some 9⟩ 3 = (.ok, some ⟨1, 6, 0, 0, false⟩) := by decide
 
-/-- SetUnread marks *only* enough: when it moves the cursor it moves it exactly to
-    max(floor, committed − N) -/
-theorem c34_set_exact (r : Row) (h : Head) (n t : Nat) (ht : setTarget r h n = some t) :
-    t = max (specFloor r h) (h.committed - n) ∧ t > r.read := by
-  unfold setTarget at ht
-  simp only at ht
-  split at ht
-  · simp at ht
-  · rename_i hgt
-    simp only [Option.some.injEq] at ht
-    subst ht
-    rw [c34_floor] at hgt ⊢
-    split
-    · rename_i hlt
-      simp only [hlt, if_true] at hgt
-      rw [maxFloor2] at hgt ⊢; omega
-    · rename_i hlt
-      simp only [hlt, if_false] at hgt
-      omega
-
-/-- **Delete hides everything committed**: afterwards nothing is unread and no last message is shown. -/
+/-- **Delete hides everything committed**: afterwards nothing is unread, no last
+    message is shown, activation is cleared, the read cursor is untouched. -/
 theorem c34_delete_zero (row : Option Row) (h : Head) (r' : Row)
     (hs : deleteStep row h = (.ok, some r')) :
-    specUnread r' h = 0 ∧ (∀ it, conversationOf r' h = some it → it.last = none) ∧ r'.act = 0 := by
-  unfold deleteStep at hs
-  cases hm : mutationHead row h with
-  | error e =>
-    rw [hm] at hs; simp only [Prod.mk.injEq] at hs
-    obtain ⟨he, _⟩ := hs
-    subst he
-    unfold mutationHead at hm
-    cases row with
-    | none => simp at hm
-    | some r0 =>
-      simp only at hm
-      split at hm
-      · simp at hm
-      · cases ho : h.outcome <;> rw [ho] at hm <;> simp at hm
-  | ok p =>
-    obtain ⟨r, h'⟩ := p
-    obtain ⟨_, rfl, ht⟩ := mutationHead_ok row h r h' hm
-    rw [hm] at hs
-    simp only [Prod.mk.injEq, Option.some.injEq, true_and] at hs
-    subst hs
-    unfold hide
-    simp only [ht, Bool.false_eq_true, if_false]
-    refine ⟨?_, ?_, rfl⟩
-    · unfold specUnread specEffectiveRead; simp only; split <;> omega
-    · intro it hc
-      cases hl : it.last with
-      | none => rfl
-      | some s =>
-        have := c34_last_visible _ _ it s hc hl
-        unfold conversationOf visibleMessage at hc
-        simp only at hc
-        split at hc
-        · simp at hc
-        · rename_i hv
-          exfalso
-          simp only [Bool.and_eq_true, decide_eq_true_eq, Int.le_refl, decide_true, Bool.and_true,
-            Bool.not_eq_true', Bool.and_eq_false_iff, decide_eq_false_iff_not] at hv
-          -- not visible and act = 0 is the omitted case, so hv says visible; but committed ≤ del'
-          split at hv <;> omega
+    specUnread r' h = 0 ∧ shownLast r' h = none ∧ r'.act = 0 ∧ conversationOf r' h = none := by
+  obtain ⟨r, _, ht, hr'⟩ := deleteStep_ok row h r' hs
+  subst hr'
+  have hd : (hide r h.committed).del ≥ h.committed := by
+    unfold hide; simp only [ht, Bool.false_eq_true, if_false]; split <;> omega
+  have ha : (hide r h.committed).act = 0 := by unfold hide; simp [ht]
+  have hv : visibleMessage (hide r h.committed) h = false := by
+    unfold visibleMessage; simp; omega
+  refine ⟨?_, ?_, ha, ?_⟩
+  · unfold specUnread specEffectiveRead; omega
+  · cases hl : shownLast (hide r h.committed) h with
+    | none => rfl
+    | some s => have := ((shownLast_some _ _ s).mp hl).2.1; rw [hv] at this; simp at this
+  · unfold conversationOf; simp [hv, ha]
 
 example : deleteStep (some ⟨1, 2, 0, 7, false⟩) ⟨.ok, 9, 0, 0, some 9⟩ = (.ok, some ⟨1, 2, 9, 0, false⟩) := by decide
 
+/-! ### monotonicity (single step and whole histories) -/
+
+def Mono (r r' : Row) : Prop := r'.read ≥ r.read ∧ r'.del ≥ r.del ∧ r'.join = r.join ∧ r'.tomb = r.tomb
+
+theorem mono_refl (r : Row) : Mono r r := ⟨Nat.le_refl _, Nat.le_refl _, rfl, rfl⟩
+
+theorem mono_advance (r : Row) (t : Nat) : Mono r (advanceRead r t) := by
+  unfold advanceRead Mono
+  by_cases ht : r.tomb = true
+  · simp [ht]
+  · by_cases hg : t > r.read
+    · refine ⟨?_, ?_, ?_, ?_⟩ <;> simp [ht, hg] <;> omega
+    · simp [ht, hg]
+
+theorem mono_hide (r : Row) (t : Nat) : Mono r (hide r t) := by
+  unfold hide Mono
+  by_cases ht : r.tomb = true
+  · simp [ht]
+  · by_cases hg : t > r.del
+    · refine ⟨?_, ?_, ?_, ?_⟩ <;> simp [ht, hg] <;> omega
+    · refine ⟨?_, ?_, ?_, ?_⟩ <;> simp [ht, hg]
+
+theorem mono_activate (r : Row) (t : Int) : Mono r (activate r t) := by
+  unfold activate Mono; repeat' split
+  all_goals simp
+
+theorem clear_mono (r : Row) (h : Head) : ∃ r', (clearStep (some r) h).2 = some r' ∧ Mono r r' := by
+  unfold clearStep
+  rcases mutationHead_cases (some r) h with ⟨r0, hr, _, hm⟩ | ⟨e, _, hm⟩
+  · simp only [Option.some.injEq] at hr; subst hr
+    rw [hm]; simp only
+    cases clearTarget r h with
+    | none => exact ⟨r, rfl, mono_refl r⟩
+    | some t => exact ⟨_, rfl, mono_advance r t⟩
+  · rw [hm]; exact ⟨r, rfl, mono_refl r⟩
+
+theorem set_mono (r : Row) (h : Head) (n : Int) : ∃ r', (setStep (some r) h n).2 = some r' ∧ Mono r r' := by
+  unfold setStep
+  by_cases hn : n < 0
+  · simp only [hn, if_true]; exact ⟨r, rfl, mono_refl r⟩
+  · simp only [hn, if_false]
+    rcases mutationHead_cases (some r) h with ⟨r0, hr, _, hm⟩ | ⟨e, _, hm⟩
+    · simp only [Option.some.injEq] at hr; subst hr
+      rw [hm]; simp only
+      cases setTarget r h n.toNat with
+      | none => exact ⟨r, rfl, mono_refl r⟩
+      | some t => exact ⟨_, rfl, mono_advance r t⟩
+    · rw [hm]; exact ⟨r, rfl, mono_refl r⟩
+
+theorem delete_mono (r : Row) (h : Head) : ∃ r', (deleteStep (some r) h).2 = some r' ∧ Mono r r' := by
+  unfold deleteStep
+  rcases mutationHead_cases (some r) h with ⟨r0, hr, _, hm⟩ | ⟨e, _, hm⟩
+  · simp only [Option.some.injEq] at hr; subst hr
+    rw [hm]; exact ⟨_, rfl, mono_hide r _⟩
+  · rw [hm]; exact ⟨r, rfl, mono_refl r⟩
+
+theorem activate_mono (r : Row) (t : Int) : ∃ r', (activateStep (some r) t).2 = some r' ∧ Mono r r' := by
+  unfold activateStep
+  by_cases ht : t ≤ 0
+  · simp only [ht, if_true]; exact ⟨r, rfl, mono_refl r⟩
+  · simp only [ht, if_false]; exact ⟨_, rfl, mono_activate r t⟩
+
 /-- **Cursors are monotone under every command**: read and deleted-to never move
     backwards, the join point and tombstone flag never change (the commands only
-    call the monotone mutators — C16). -/
-theorem c34_monotone (r r' : Row) (h : Head) (n t : Int) (s : Status) :
-    (clearStep (some r) h = (s, some r') ∨ setStep (some r) h n = (s, some r') ∨
-     deleteStep (some r) h = (s, some r') ∨ activateStep (some r) t = (s, some r')) →
-    r'.read ≥ r.read ∧ r'.del ≥ r.del ∧ r'.join = r.join ∧ r'.tomb = r.tomb := by
-  have hadv : ∀ x, (advanceRead r x).read ≥ r.read ∧ (advanceRead r x).del = r.del ∧
-      (advanceRead r x).join = r.join ∧ (advanceRead r x).tomb = r.tomb := by
-    intro x; unfold advanceRead; repeat' split
-    all_goals simp only
-    all_goals omega
-  have hmh : ∀ p, mutationHead (some r) h = .ok p → p.1 = r := by
-    intro p hp; obtain ⟨a, b⟩ := p
-    have := (mutationHead_ok _ _ _ _ hp).1; simp at this; exact this.symm
-  rintro (hs | hs | hs | hs)
-  · unfold clearStep at hs
-    cases hm : mutationHead (some r) h with
-    | error e => rw [hm] at hs; simp at hs; rw [← hs.2]; simp
-    | ok p =>
-      have := hmh p hm
-      rw [hm] at hs; simp only at hs
-      split at hs <;> simp only [Prod.mk.injEq, Option.some.injEq] at hs
-      · rw [← hs.2, this]; simp
-      · rw [← hs.2, this]; have := hadv ‹_›; omega
-  · unfold setStep at hs
-    split at hs
-    · simp at hs; rw [← hs.2]; simp
-    · cases hm : mutationHead (some r) h with
-      | error e => rw [hm] at hs; simp at hs; rw [← hs.2]; simp
-      | ok p =>
-        have := hmh p hm
-        rw [hm] at hs; simp only at hs
-        split at hs <;> simp only [Prod.mk.injEq, Option.some.injEq] at hs
-        · rw [← hs.2, this]; simp
-        · rw [← hs.2, this]; have := hadv ‹_›; omega
-  · unfold deleteStep at hs
-    cases hm : mutationHead (some r) h with
-    | error e => rw [hm] at hs; simp at hs; rw [← hs.2]; simp
-    | ok p =>
-      have := hmh p hm
-      rw [hm] at hs; simp only [Prod.mk.injEq, Option.some.injEq] at hs
-      rw [← hs.2, this]
-      unfold hide; repeat' split
-      all_goals simp only
-      all_goals omega
-  · unfold activateStep at hs
-    split at hs
-    · simp at hs; rw [← hs.2]; simp
-    · simp only [Prod.mk.injEq, Option.some.injEq] at hs
-      rw [← hs.2]; unfold activate; repeat' split
-      all_goals simp
+    call the monotone mutators — C16), whatever the status returned. -/
+theorem c34_monotone (r : Row) (h : Head) (n t : Int) :
+    (∃ r', (clearStep (some r) h).2 = some r' ∧ Mono r r') ∧
+    (∃ r', (setStep (some r) h n).2 = some r' ∧ Mono r r') ∧
+    (∃ r', (deleteStep (some r) h).2 = some r' ∧ Mono r r') ∧
+    (∃ r', (activateStep (some r) t).2 = some r' ∧ Mono r r') :=
+  ⟨clear_mono r h, set_mono r h n, delete_mono r h, activate_mono r t⟩
 
-/-! ### histories -/
+example : Mono ⟨1, 2, 0, 0, false⟩ ⟨1, 9, 0, 0, false⟩ := by unfold Mono; decide
 
 /-- one step of a single-channel history: a user command, or the environment
     replacing the head (sends, retention, leader changes — arbitrary) -/
@@ -317,50 +321,28 @@ def evStep (st : Row × Head) : Ev → Row × Head
   | .act t => (((activateStep (some st.1) t).2).getD st.1, st.2)
   | .head h => (st.1, h)
 
-theorem some_of_some (p : Status × Option Row) (r0 : Row) (h : p.2.isSome = true) :
-    p = (p.1, some (p.2.getD r0)) := by
-  obtain ⟨a, b⟩ := p; cases b <;> simp_all
-
-theorem step_isSome (r : Row) (h : Head) (n t : Int) :
-    (clearStep (some r) h).2.isSome ∧ (setStep (some r) h n).2.isSome ∧
-    (deleteStep (some r) h).2.isSome ∧ (activateStep (some r) t).2.isSome := by
-  refine ⟨?_, ?_, ?_, ?_⟩
-  · unfold clearStep; cases mutationHead (some r) h <;> simp only <;> (try split) <;> rfl
-  · unfold setStep; split
-    · rfl
-    · cases mutationHead (some r) h <;> simp only <;> (try split) <;> rfl
-  · unfold deleteStep; cases mutationHead (some r) h <;> rfl
-  · unfold activateStep; split <;> rfl
+theorem evStep_mono (r : Row) (h : Head) (e : Ev) : Mono r (evStep (r, h) e).1 := by
+  cases e with
+  | clear => obtain ⟨r', h1, h2⟩ := clear_mono r h; simp only [evStep, h1, Option.getD_some]; exact h2
+  | set n => obtain ⟨r', h1, h2⟩ := set_mono r h n; simp only [evStep, h1, Option.getD_some]; exact h2
+  | del => obtain ⟨r', h1, h2⟩ := delete_mono r h; simp only [evStep, h1, Option.getD_some]; exact h2
+  | act t => obtain ⟨r', h1, h2⟩ := activate_mono r t; simp only [evStep, h1, Option.getD_some]; exact h2
+  | head h' => exact mono_refl r
 
 /-- **Over ANY sequence of clear / set / delete / activate commands interleaved with
     arbitrary head changes, the read and deleted-to cursors never move backwards.** -/
 theorem c34_history_monotone (evs : List Ev) (r : Row) (h : Head) :
-    (evs.foldl evStep (r, h)).1.read ≥ r.read ∧ (evs.foldl evStep (r, h)).1.del ≥ r.del ∧
-    (evs.foldl evStep (r, h)).1.join = r.join := by
+    Mono r (evs.foldl evStep (r, h)).1 := by
   induction evs generalizing r h with
-  | nil => simp
+  | nil => exact mono_refl r
   | cons e es ih =>
     simp only [List.foldl_cons]
-    have key : (evStep (r, h) e).1.read ≥ r.read ∧ (evStep (r, h) e).1.del ≥ r.del ∧ (evStep (r, h) e).1.join = r.join := by
-      obtain ⟨h1, h2, h3, h4⟩ := step_isSome r h (match e with | .set n => n | _ => 0) (match e with | .act t => t | _ => 0)
-      cases e with
-      | clear =>
-        have := c34_monotone r _ h 0 0 _ (Or.inl (some_of_some (clearStep (some r) h) r h1))
-        exact ⟨this.1, this.2.1, this.2.2.1⟩
-      | set n =>
-        have := c34_monotone r _ h n 0 _ (Or.inr (Or.inl (some_of_some (setStep (some r) h n) r h2)))
-        exact ⟨this.1, this.2.1, this.2.2.1⟩
-      | del =>
-        have := c34_monotone r _ h 0 0 _ (Or.inr (Or.inr (Or.inl (some_of_some (deleteStep (some r) h) r h3))))
-        exact ⟨this.1, this.2.1, this.2.2.1⟩
-      | act t =>
-        have := c34_monotone r _ h 0 t _ (Or.inr (Or.inr (Or.inr (some_of_some (activateStep (some r) t) r h4))))
-        exact ⟨this.1, this.2.1, this.2.2.1⟩
-      | head h' => exact ⟨Nat.le_refl _, Nat.le_refl _, rfl⟩
-    have := ih (evStep (r, h) e).1 (evStep (r, h) e).2
-    obtain ⟨a1, a2, a3⟩ := key
-    obtain ⟨b1, b2, b3⟩ := this
-    exact ⟨Nat.le_trans a1 b1, Nat.le_trans a2 b2, b3.trans a3⟩
+    have a := evStep_mono r h e
+    have b := ih (evStep (r, h) e).1 (evStep (r, h) e).2
+    unfold Mono at a b ⊢
+    obtain ⟨a1, a2, a3, a4⟩ := a
+    obtain ⟨b1, b2, b3, b4⟩ := b
+    exact ⟨Nat.le_trans a1 b1, Nat.le_trans a2 b2, b3.trans a3, b4.trans a4⟩
 
 example : ([Ev.clear, Ev.head ⟨.ok, 12, 0, 0, some 12⟩, Ev.set 1].foldl evStep
     (⟨1, 0, 0, 0, false⟩, ⟨.ok, 9, 0, 0, some 9⟩)).1.read = 11 := by decide
@@ -373,29 +355,13 @@ theorem c34_unread_counts_new_messages (r r' : Row) (h : Head) (k : Nat)
     (h1 : r.read ≤ h.committed) (h2 : r.del ≤ h.committed) (h3 : r.join - 1 ≤ h.committed)
     (h4 : h.retention ≤ h.committed) (h5 : h.ownSend ≤ h.committed) :
     specUnread r' { h with committed := h.committed + k } = k := by
-  have hm := c34_monotone r r' h 0 0 .ok (Or.inl hs)
-  have hz := c34_clear_zero (some r) h r' hs
-  unfold clearStep at hs
-  cases hmh : mutationHead (some r) h with
-  | error e => rw [hmh] at hs; simp at hs; subst hs.1; unfold mutationHead at hmh; simp at hmh
-               split at hmh
-               · simp at hmh
-               · cases ho : h.outcome <;> rw [ho] at hmh <;> simp at hmh
-  | ok p =>
-    obtain ⟨r0, h0⟩ := p
-    obtain ⟨hr, rfl, ht⟩ := mutationHead_ok _ _ _ _ hmh
-    simp only [Option.some.injEq] at hr; subst hr
-    rw [hmh] at hs; simp only at hs
-    unfold clearTarget at hs
-    unfold specUnread specEffectiveRead at hz ⊢
-    simp only
-    split at hs
-    · simp only [Prod.mk.injEq, Option.some.injEq, true_and] at hs; subst hs; omega
-    · simp only [Prod.mk.injEq, Option.some.injEq, true_and] at hs
-      subst hs
-      unfold advanceRead at hz ⊢
-      simp only [ht, Bool.false_eq_true, if_false] at hz ⊢
-      split at hz <;> split <;> simp only at hz ⊢ <;> omega
+  obtain ⟨r0, hr, ht, hr'⟩ := clearStep_ok _ h r' hs
+  simp only [Option.some.injEq] at hr; subst hr
+  subst hr'
+  unfold specUnread specEffectiveRead
+  split
+  · simp only; omega
+  · rw [advanceRead_live r _ ht]; simp only; omega
 
 example : specUnread ⟨1, 9, 0, 0, false⟩ ⟨.ok, 9 + 4, 0, 0, some 13⟩ = 4 := by decide
 
@@ -403,7 +369,7 @@ example : specUnread ⟨1, 9, 0, 0, false⟩ ⟨.ok, 9 + 4, 0, 0, some 13⟩ = 4
 
 theorem c34_judge_item_model (r : Row) (h : Head) (it : Item) (hc : conversationOf r h = some it) :
     judgeItem r h it.unread it.last = "ok" := by
-  have hu := (c34_unread_formula r h it hc).1
+  have hu := c34_unread_formula r h it hc
   unfold judgeItem
   simp only [hu, bne_self_eq_false, Bool.false_eq_true, if_false]
   cases hl : it.last with
@@ -414,8 +380,8 @@ theorem c34_judge_item_model (r : Row) (h : Head) (it : Item) (hc : conversation
       by_cases hj : r.join > 0
       · have := d hj; simp; omega
       · simp [hj]
-    have e2 : decide (s ≤ r.del) = false := by simp; omega
-    have e3 : decide (s ≤ h.retention) = false := by simp; omega
+    have e2 : ¬ s ≤ r.del := by omega
+    have e3 : ¬ s ≤ h.retention := by omega
     simp [e1, e2, e3, a]
   | none =>
     simp only
